@@ -114,6 +114,57 @@ def error_consts(tu, name, _memo={}):
     return out
 
 
+# accessors of the C API that cannot fail (inline functions in CPython 3.12)
+NO_FAIL_APIS = frozenset("""Py_REFCNT _Py_REFCNT Py_TYPE _Py_TYPE Py_IS_TYPE _Py_IS_TYPE Py_SIZE _Py_SIZE
+    PyObject_TypeCheck _PyObject_TypeCheck PyType_IsSubtype Py_Is Py_IsNone PyType_HasFeature
+    PyType_GetFlags""".split())
+
+
+def null_without_exception(tu, name, _memo={}):
+    """the repository function returns a pointer, and none of its returns of
+    NULL (or of a value that may be NULL) is reached with an exception pending
+    or possibly pending: NULL is an answer ("nothing found"), not a failure"""
+    key = (tu.family, name)
+    if key in _memo:
+        return _memo[key]
+    _memo[key] = False            # recursion guard
+    fn = tu.funcs[name]
+    if tu.body(name) is None or not (fn.t or "").split("(")[0].strip().endswith("*"):
+        return False
+    # it neither sets an exception nor calls anything that could
+    for n in fn.walk():
+        if n.k == "CallExpr":
+            c = callee(n)
+            if c[0] != "fn" or c[1] in SETTERS:
+                return False
+            if c[1] in NO_FAIL_APIS:
+                continue
+            if c[1] in tu.funcs and tu.body(c[1]) is not None:
+                if c[1] != name and not null_without_exception(tu, c[1]) and \
+                        (return_values(tu, c[1]) is None or error_consts(tu, c[1]) != set()):
+                    return False
+            else:
+                return False
+    an = ErrExc(CFG(fn), tu)
+    an.strict = True
+    try:
+        an.solve()
+    except AnalysisError:
+        return False
+    saw_null = False
+    for r in an.cfg.returns():
+        if r.e is None:
+            return False
+        for st in an.IN.get(r.id, ()):
+            st2 = an.flags_stmt(r, st)
+            if sget(st2, "x") != "no":
+                return False
+            if an.flag_value_of(r.e, st2) == 0:
+                saw_null = True
+    _memo[key] = saw_null
+    return saw_null
+
+
 class _Pending(object):
     pass
 
@@ -213,6 +264,9 @@ class ErrExc(Analysis):
         if c[0] == "fn" and c[1] in NULL_NOT_ERROR:
             return "int", None            # NULL means "absent", no exception
         if t.endswith("*"):
+            if c[0] == "fn" and c[1] in self.tu.funcs and c[1] != self.cfg.name and \
+                    null_without_exception(self.tu, c[1]):
+                return "plain", None          # NULL is an answer of this helper, not a failure
             return "ptr", None
         if c[0] == "fn" and c[1] in self.tu.funcs:
             vals = return_values(self.tu, c[1])
